@@ -15,23 +15,32 @@ From Coq Require Import List.
 Open Scope Z_scope.
 
 (* ------------------------------------------------------------------ data of callframe.py *)
-(* DW_CFA_* as the module sees them (globals() scan included) = DWARF 5 Table 7.29 + GNU *)
-Theorem C06_gen_DW_CFA_is_spec : forall n, assoc_s n gen_DW_CFA = assoc_s n spec_DW_CFA.
-Proof. exact gen_DW_CFA_is_spec. Qed.
-Print Assumptions C06_gen_DW_CFA_is_spec.
+(* DW_CFA_* as the module sees them (globals() scan included): every name carries the value DWARF 5
+   Table 7.29 or the binutils/LLVM registry gives it (a correct port of a further vendor opcode
+   keeps this true, a wrong number does not) ... *)
+Theorem C06_gen_DW_CFA_sound : forall n v,
+  assoc_s n gen_DW_CFA = Some v -> assoc_s n spec_DW_CFA = Some v.
+Proof. exact gen_DW_CFA_sound. Qed.
+Print Assumptions C06_gen_DW_CFA_sound.
+
+(* ... and every name of Table 7.29 + the GNU extensions ELF producers emit is there *)
+Theorem C06_gen_DW_CFA_core : forall n v,
+  assoc_s n spec_DW_CFA_core = Some v -> assoc_s n gen_DW_CFA = Some v.
+Proof. exact gen_DW_CFA_core. Qed.
+Print Assumptions C06_gen_DW_CFA_core.
 
 Example C06_ex_gen : assoc_s "DW_CFA_def_cfa_sf" gen_DW_CFA = Some 0x12.
 Proof. reflexivity. Qed.
 
-(* _OPCODE_NAME_MAP names every opcode by a name the standard gives that opcode ... *)
+(* _OPCODE_NAME_MAP names every opcode by a name the standard/registry gives that opcode ... *)
 Theorem C06_gen_OPCODE_NAME_MAP_sound : forall op name,
   assocZ op gen_OPCODE_NAME_MAP = Some name -> assoc_s name spec_DW_CFA = Some op.
 Proof. exact gen_OPCODE_NAME_MAP_sound. Qed.
 Print Assumptions C06_gen_OPCODE_NAME_MAP_sound.
 
-(* ... and knows every opcode of the table *)
+(* ... and knows every opcode of the core table *)
 Theorem C06_gen_OPCODE_NAME_MAP_complete : forall name op,
-  In (name, op) spec_DW_CFA -> exists name', assocZ op gen_OPCODE_NAME_MAP = Some name'.
+  In (name, op) spec_DW_CFA_core -> exists name', assocZ op gen_OPCODE_NAME_MAP = Some name'.
 Proof. exact gen_OPCODE_NAME_MAP_complete. Qed.
 Print Assumptions C06_gen_OPCODE_NAME_MAP_complete.
 
